@@ -359,7 +359,9 @@ func (m *Variant) Encode() ([]byte, error) {
 
 	m.encode(buf, reflect.ValueOf(m.value))
 
-	if m.Has(VariantArrayDimensions) {
+	// Decode reads the dimensions of arrays only: a scalar whose mask has the
+	// dimensions bit carries no dimensions field
+	if m.Has(VariantArrayValues) && m.Has(VariantArrayDimensions) {
 		buf.WriteInt32(m.arrayDimensionsLength)
 		for i := 0; i < int(m.arrayDimensionsLength); i++ {
 			buf.WriteInt32(m.arrayDimensions[i])
